@@ -26,6 +26,8 @@ pub enum Src {
     Grammar(Q),
     Dp(DpQuery),
     Nested { template: u8, inner: u8, outer: u8, private_key: bool },
+    /// stacked projections over an aggregation; joins / unions with a registered Values relation
+    Extra { template: u8, depth: u8, agg: u8 },
 }
 
 #[derive(Clone, Debug, Serialize, Deserialize)]
@@ -39,6 +41,9 @@ pub struct Case {
     /// tables live in a schema: path [sch, t], table name sch_t; the privacy unit and the query use the short name
     #[serde(default)]
     pub qualified: bool,
+    /// the declared synthetic data does not cover the orders table
+    #[serde(default)]
+    pub synthetic_partial: bool,
 }
 
 pub fn strategy() -> BoxedStrategy<Case> {
@@ -46,9 +51,10 @@ pub fn strategy() -> BoxedStrategy<Case> {
         45 => crate::sqlx::query::query_strategy().prop_map(Src::Grammar),
         30 => query_strategy(vec![Group::None, Group::Public, Group::Private, Group::Both], true, true).prop_map(Src::Dp),
         25 => (0u8..8, 0u8..5, 0u8..5, any::<bool>()).prop_map(|(template, inner, outer, private_key)| Src::Nested { template, inner, outer, private_key }),
+        14 => (0u8..6, 1u8..5, 0u8..5).prop_map(|(template, depth, agg)| Src::Extra { template, depth, agg }),
     ];
-    (schema_strategy(3, 3), src, prop::bool::weighted(0.4), any::<bool>(), prop::bool::weighted(0.6), dp_strategy(), prop::bool::weighted(0.3))
-        .prop_map(|(schema, src, synthetic, soft, entry_dp, dp, qualified)| Case { schema, src, synthetic, soft, entry_dp, dp, qualified })
+    (schema_strategy(3, 3), src, prop::bool::weighted(0.4), any::<bool>(), prop::bool::weighted(0.6), dp_strategy(), prop::bool::weighted(0.3), prop::bool::weighted(0.25))
+        .prop_map(|(schema, src, synthetic, soft, entry_dp, dp, qualified, synthetic_partial)| Case { schema, src, synthetic, soft, entry_dp, dp, qualified, synthetic_partial })
         .boxed()
 }
 
@@ -60,14 +66,44 @@ impl Case {
             Src::Nested { template, inner, outer, private_key } => {
                 NestedCase { schema: self.schema.clone(), dp: self.dp.clone(), template: *template, inner: *inner, outer: *outer, inner_private_key: *private_key }.sql()
             }
+            Src::Extra { template, depth, agg } => {
+                let a = match agg % 5 {
+                    0 => "COUNT(*)",
+                    1 => "SUM(x)",
+                    2 => "AVG(x)",
+                    3 => "COUNT(x)",
+                    _ => "MAX(x)",
+                };
+                let wrap = |inner: String, d: u8| -> String {
+                    let mut q = inner;
+                    for i in 0..d {
+                        q = format!("SELECT k, (c + {}) AS c FROM ({q}) AS s{i}", i + 1);
+                    }
+                    q
+                };
+                match template % 6 {
+                    0 => wrap(format!("SELECT kind AS k, {a} AS c FROM orders GROUP BY kind"), *depth),
+                    1 => "SELECT o.x AS x, o.kind AS kind FROM orders AS o JOIN vals AS v ON o.kind = v.vals".to_string(),
+                    2 => "SELECT kind AS a FROM orders UNION SELECT vals AS a FROM vals".to_string(),
+                    3 => format!("SELECT v.vals AS k, {a} AS c FROM orders AS o JOIN vals AS v ON o.kind = v.vals GROUP BY v.vals"),
+                    4 => wrap(format!("SELECT pk AS k, {a} AS c FROM orders GROUP BY pk"), *depth),
+                    _ => wrap(format!("SELECT u.g AS k, {a} AS c FROM orders AS o JOIN users AS u ON o.uid = u.id GROUP BY u.g").replace("(x)", "(o.x)"), *depth),
+                }
+            }
         }
     }
     pub fn synthetic_data(&self) -> Option<SyntheticData> {
         if !self.synthetic {
             return None;
         }
-        let h: Hierarchy<qrlew::expr::identifier::Identifier> =
-            self.schema.db().tables.iter().map(|t| (self.path(&t.name), qrlew::expr::identifier::Identifier::from(format!("syn_{}", t.name)))).collect();
+        let h: Hierarchy<qrlew::expr::identifier::Identifier> = self
+            .schema
+            .db()
+            .tables
+            .iter()
+            .filter(|t| !(self.synthetic_partial && t.name == "orders"))
+            .map(|t| (self.path(&t.name), qrlew::expr::identifier::Identifier::from(format!("syn_{}", t.name))))
+            .collect();
         Some(SyntheticData::new(h))
     }
     pub fn path(&self, table: &str) -> Vec<String> {
@@ -96,6 +132,10 @@ impl Case {
                 let syn = qrlew::relation::Table::new(format!("syn_{}", t.name), vec![format!("syn_{}", t.name)].into(), base.schema().clone(), base.size().clone());
                 v.push((vec![format!("syn_{}", t.name)], Arc::new(Relation::Table(syn))));
             }
+        }
+        use qrlew::builder::Ready;
+        if let Ok(vals) = qrlew::relation::Relation::values().name("vals").values([0i64, 1, 2, 3]).try_build() {
+            v.push((vec!["vals".to_string()], Arc::new(Relation::Values(vals))));
         }
         v.into_iter().collect()
     }
@@ -240,7 +280,18 @@ fn signature(r: &RelationWithDpEvent) -> String {
     crate::ir::all_nodes(r.relation(), &mut nodes);
     let kinds: Vec<&str> = nodes.iter().map(|n| kind(n)).collect();
     let tables: Vec<String> = nodes.iter().filter_map(|n| if let Relation::Table(t) = n { Some(t.name().to_string()) } else { None }).collect();
-    format!("{}|{}|{:?}|{}", r.dp_event(), kinds.join(","), tables, r.relation().schema())
+    // generated column names carry fresh ids: only their presence counts
+    let schema: Vec<String> = r
+        .relation()
+        .schema()
+        .iter()
+        .map(|f| {
+            let n = f.name();
+            let n = if n.starts_with("field_") && n.len() == 10 { "field" } else { n };
+            format!("{n}: {}", qrlew::data_type::DataTyped::data_type(f))
+        })
+        .collect();
+    format!("{}|{}|{:?}|{}", r.dp_event(), kinds.join(","), tables, schema.join(", "))
 }
 
 pub struct Outcome {
@@ -442,7 +493,28 @@ pub fn check_both(case: &Case, st: &mut Stats, want_c13: bool, want_c02: bool) -
                     out.c13.push(Fail::new(format!("C13|not_best_scoring|{entry}"), format!("the returned rewriting is that of a derivation of score {s}; acceptable derivations reach {best}\n{ctx}")));
                     return out;
                 }
-                None => st.class("returned_rewriting_not_identified"),
+                None => {
+                    // generated names occasionally collide inside one plan and change the outcome from call to call
+                    // (a recorded C17 finding): only a stable mismatch counts
+                    let again = safe(|| {
+                        if case.entry_dp {
+                            rel.rewrite_with_differential_privacy(&rels, synth.clone(), pu.clone(), case.dp.params())
+                        } else {
+                            rel.rewrite_as_privacy_unit_preserving(&rels, synth.clone(), pu.clone(), case.dp.params(), Some(strategy))
+                        }
+                    });
+                    let stable = matches!(&again, Ok(Ok(r2)) if signature(r2) == sig);
+                    let any_now = lib.iter().filter(|d| acceptable.contains(d.attributes().output())).any(|d| safe(|| d.rewrite(Rewriter::new(&rels))).map_or(false, |r2| signature(&r2) == sig));
+                    if !stable || any_now {
+                        st.class("rewriting_not_stable_between_calls");
+                        return out;
+                    }
+                    out.c13.push(Fail::new(
+                        format!("C13|returned_rewriting_of_no_acceptable_derivation|{entry}"),
+                        format!("the returned rewriting (event {}, output {}) is the rewriting of none of the {} acceptable derivations\n{ctx}", rw.dp_event(), rw.relation().schema(), model_ok.len()),
+                    ));
+                    return out;
+                }
             }
         } else if matched_best {
             st.class("best_score_confirmed");
@@ -454,7 +526,8 @@ pub fn check_both(case: &Case, st: &mut Stats, want_c13: bool, want_c02: bool) -
     }
     // ---- C02, plan level: column lineage of the returned relation (DP entry point)
     if want_c02 && case.entry_dp {
-        let mut lin = Lineage::new(protected.clone());
+        let protected_paths: Vec<Vec<String>> = case.schema.protected().iter().map(|t| case.path(t)).collect();
+        let mut lin = Lineage::new_with_paths(protected.clone(), protected_paths);
         let l = lin.of(rw.relation());
         st.class("lineage_computed");
         let root_label = lib.iter().filter(|d| acceptable.contains(d.attributes().output())).map(|d| tag(d.attributes().output())).collect::<BTreeSet<_>>();
@@ -465,6 +538,7 @@ pub fn check_both(case: &Case, st: &mut Stats, want_c13: bool, want_c02: bool) -
                 Src::Grammar(_) => "grammar",
                 Src::Dp(_) => "aggregation",
                 Src::Nested { .. } => "nested",
+                Src::Extra { .. } => "extra",
             };
             out.c02.push(Fail::new(
                 format!("C02|raw_{what}_in_dp_result|{srck}"),
